@@ -45,6 +45,11 @@ var templates = []func(m string) string{
 	func(m string) string { return "<" + m },
 	func(m string) string { return m + "\nhttp://evil.example/" + m },
 	func(m string) string { return "</title></script></style></textarea><" + m + ">" }, // leaves RCDATA / raw-text contexts
+	// the same with what real names end in: code that treats "the extension" separately sees these
+	func(m string) string { return m + "\nhttp://evil.example/" + m + ".mp3" },
+	func(m string) string { return m + "\r\n#EXTVLCOPT:" + m + ".ts" },
+	func(m string) string { return "<b>" + m + "</b>.mkv" },
+	func(m string) string { return m + ",\n" + m + ".m3u8" },
 }
 
 var idTemplates = []func(m string) string{ // six bytes
